@@ -19,14 +19,18 @@ CONSTANTS
     CheckKeys,    \* validator keys used in check-ins
     Eons,         \* eon numbers named by DKG messages
     MaxDepth,     \* bound on Len(hist)
-    Emit          \* print histories?
+    Emit,         \* print histories?
+    TagMode       \* "set": remember the classes of refused ops taken (see tags) | "none"
 
 VARIABLES app, g, resp, last, hist, app2, ins, tags
 vars == <<app, g, resp, last, hist, app2, ins, tags>>
 (* tags = the classes <<kind, defect>> of refused-by-design ops taken so far. It is part of every VIEW:
    such ops are (nearly) no-ops of the SPEC, so without it a history containing one is shadowed by an
    equivalent history without it, and an implementation in which the refused op has an effect would
-   never be driven past it. *)
+   never be driven past it. It multiplies the state space by the number of subsets of refused classes,
+   so it is switched on (TagMode = "set") in the small universes; in the large ones the delayed
+   effect of a refused op is covered by the non-interference product SpecNI, whose VIEW contains the
+   inserted transaction. *)
 
 BaseTx(k, s) == [k |-> k, s |-> s, n |-> 0, bad |-> "", cfg |-> NoCfg, b |-> 0, eon |-> 0,
                  ok |-> FALSE, key |-> NoKey, to |-> <<>>, gm |-> 0]
@@ -124,7 +128,7 @@ Results(s, o) ==
       [] o.op = "end" -> LET x == EndBlock(s, s.height + 1) IN
                          {[st |-> Commit(x.st), r |-> R("end", tx, 0, x.events, x.updates)]}
 
-TagsNext(o) == IF o.op = "tx" /\ Malformed(o.tx) THEN tags \cup {<<o.tx.k, o.tx.bad>>} ELSE tags
+TagsNext(o) == IF TagMode = "set" /\ o.op = "tx" /\ Malformed(o.tx) THEN tags \cup {<<o.tx.k, o.tx.bad>>} ELSE tags
 
 Init ==
     /\ app = InitState /\ app2 = InitState
